@@ -5,4 +5,10 @@ CONSTANTS
  Plans <- MCPlans
  Fixes <- MCFixes
  Alphabet <- MCAlphabet
- K = 3
+ K = 4
+INVARIANT C05_NoStepWhilePaused
+INVARIANT C05_NoRaise
+INVARIANT C05_PlayUnpauses
+INVARIANT C05_PlayWins
+INVARIANT C05_StepsPrefix
+INVARIANT C05_Transparent
